@@ -147,7 +147,7 @@ pub struct Info {
 
 #[derive(Clone, Debug)]
 pub(crate) enum Obj {
-    Var { ty: TypeId, res: Res, line: u32, is_param: bool, name: String },
+    Var { ty: TypeId, res: Res, line: u32, name: String },
     Func { idx: u32 },
     TypeName { ty: TypeId },
     /// alias or named type not yet resolved: index into decls
@@ -433,7 +433,7 @@ impl<'a> Checker<'a> {
                 return slot;
             }
         }
-        let o = self.new_obj(Obj::Var { ty, res: Res::Local(slot), line: id.line, is_param, name: id.name.clone() });
+        let o = self.new_obj(Obj::Var { ty, res: Res::Local(slot), line: id.line, name: id.name.clone() });
         if !is_param {
             self.fctx.as_mut().unwrap().locals.push(o);
         }
@@ -534,7 +534,7 @@ impl<'a> Checker<'a> {
                         }
                         let gidx = self.info.globals.len() as u32;
                         self.info.globals.push(GlobalInfo { name: n.name.clone(), ty: T_INVALID, init: None });
-                        let o = self.new_obj(Obj::Var { ty: T_INVALID, res: Res::Global(gidx), line: n.line, is_param: false, name: n.name.clone() });
+                        let o = self.new_obj(Obj::Var { ty: T_INVALID, res: Res::Global(gidx), line: n.line, name: n.name.clone() });
                         self.info.res.insert(n.id, Res::Global(gidx));
                         self.declare_pkg(n, o);
                     }
